@@ -1528,3 +1528,99 @@ M("M98", "only Preprocess results are counted as done (directory scans never com
                     let _ = self.progress.add_done(1);
                     let preprocess_result = result.map_err(|e| {""")],
   {"C03": ["R03.3"]})
+
+# ------------------------------------------------------------------ R12.7 (decision structure of the line-ending sniffer)
+M("M99", "sniffer answers CRLF whenever the last but one byte is \\r (the last byte is not looked at first)",
+  [("src/fs/line_ending.rs", """            if buf[len - 1] == b'\\n' {
+                if buf[len - 2] == b'\\r' {
+                    CRLF
+                } else {
+                    LF
+                }
+            } else {
+                OS_LINE_ENDING
+            }""", """            if buf[len - 2] == b'\\r' {
+                CRLF
+            } else if buf[len - 1] == b'\\n' {
+                LF
+            } else {
+                OS_LINE_ENDING
+            }""")],
+  {"C12": ["R12.7"]})
+M("M100", "sniffer compares the FIRST two bytes with \\r\\n instead of the last two",
+  [("src/fs/line_ending.rs", """                if buf[len - 2] == b'\\r' {""", """                if buf[0] == b'\\r' {""")],
+  {"C12": ["R12.7"]})
+M("M101", "sniffer: the LF answer comes first (a line ending in \\r\\n is answered LF)",
+  [("src/fs/line_ending.rs", """            if buf[len - 1] == b'\\n' {
+                if buf[len - 2] == b'\\r' {
+                    CRLF
+                } else {
+                    LF
+                }
+            } else {
+                OS_LINE_ENDING
+            }""", """            if buf[len - 1] == b'\\n' {
+                LF
+            } else if buf[len - 2] == b'\\r' {
+                CRLF
+            } else {
+                OS_LINE_ENDING
+            }""")],
+  {"C12": ["R12.7"]})
+M("N67", "sniffer written with ends_with on the first line's bytes",
+  [("src/fs/line_ending.rs", """    match len {
+        0 => OS_LINE_ENDING,
+        1 => {
+            if buf[0] == b'\\n' {
+                LF
+            } else {
+                OS_LINE_ENDING
+            }
+        }
+        _ => {
+            if buf[len - 1] == b'\\n' {
+                if buf[len - 2] == b'\\r' {
+                    CRLF
+                } else {
+                    LF
+                }
+            } else {
+                OS_LINE_ENDING
+            }
+        }
+    }""", """    let line = &buf[..len];
+    if line.ends_with(b"\\r\\n") {
+        CRLF
+    } else if line.ends_with(b"\\n") {
+        LF
+    } else {
+        OS_LINE_ENDING
+    }""")],
+  {})
+M("N68", "sniffer written with slice patterns",
+  [("src/fs/line_ending.rs", """    match len {
+        0 => OS_LINE_ENDING,
+        1 => {
+            if buf[0] == b'\\n' {
+                LF
+            } else {
+                OS_LINE_ENDING
+            }
+        }
+        _ => {
+            if buf[len - 1] == b'\\n' {
+                if buf[len - 2] == b'\\r' {
+                    CRLF
+                } else {
+                    LF
+                }
+            } else {
+                OS_LINE_ENDING
+            }
+        }
+    }""", """    match &buf[..len] {
+        [.., b'\\r', b'\\n'] => CRLF,
+        [.., b'\\n'] => LF,
+        _ => OS_LINE_ENDING,
+    }""")],
+  {})
